@@ -346,6 +346,20 @@ def _gen_pages(rng, timeseries):
                 items.append([list(f) for f in d])
         nxt = "next" if i < n - 1 else "last"
         pages.append({"kind": "page", "items": items, "next": nxt, "href": hrefs[i + 1] if i < n - 1 else None})
+    # the `_meta` block of every page is the server's own bookkeeping, not part of the paging contract ("follow the
+    # next links until none remains"): it may be accurate, stale in either direction (sessions inserted or deleted while
+    # the result set is being paged), of another type, or absent
+    held = sum(len(pg["items"]) for pg in pages if pg.get("kind") == "page")
+    style = rng.choice(["accurate", "accurate", "understated", "first_page_only", "zero", "overstated", "string", "absent", "mixed"])
+    seen = 0
+    for i, pg in enumerate(pages):
+        if pg.get("kind") != "page":
+            continue
+        seen += len(pg["items"])
+        st = rng.choice(["accurate", "understated", "zero", "overstated", "absent"]) if style == "mixed" else style
+        total = {"accurate": held, "understated": max(0, min(held - 1, seen)), "first_page_only": len(pages[0]["items"]),
+                 "zero": 0, "overstated": held + rng.choice([1, 7, 999]), "string": str(held)}.get(st)
+        pg["meta"] = None if st == "absent" else {"page": rng.choice([i + 1, 1]), "max_results": rng.choice([1, len(pg["items"]), 25, 100]), "total": total}
     r = rng.random()
     last = pages[-1]
     if r < 0.08:
@@ -586,7 +600,11 @@ class _Resp:
 
 def _payload(p):
     items = [dict((k, _copy(v)) for k, v in d) for d in p["items"]]
-    pl = {"_items": items, "_meta": {"page": 1, "max_results": 100, "total": 999}}
+    pl = {"_items": items}
+    if "meta" not in p:
+        pl["_meta"] = {"page": 1, "max_results": 100, "total": 999}
+    elif p["meta"] is not None:
+        pl["_meta"] = dict(p["meta"])
     nx = p["next"]
     if nx == "last":
         pl["_links"] = {"parent": {"title": "home", "href": "/"}, "self": {"title": "s", "href": "x"}}
@@ -1192,6 +1210,11 @@ def features(case, obs):
         for p in case["pages"]:
             if p["kind"] == "page":
                 out.append("next:" + p["next"])
+                if "meta" in p:
+                    held = sum(len(q["items"]) for q in case["pages"] if q["kind"] == "page")
+                    mt = p["meta"]
+                    out.append("meta:" + ("absent" if mt is None else "string" if isinstance(mt["total"], str) else
+                                          "accurate" if mt["total"] == held else "understated" if mt["total"] < held else "overstated"))
             else:
                 out.append("resp:" + p["kind"])
         for d in obs["items"]:
